@@ -18,6 +18,7 @@ def run(ctx):
         for cfg, what in (("MCPool_modes.cfg", "2 txs, remote/local/strict, every evaluation order, stale evaluation head"),
                           ("MCPool_drops.cfg", "settled / dependent / expiring txs, 3 heads, lifetime and blocklist drops"),
                           ("MCPool_sameid.cfg", "one tx signed twice (same id, two hashes, two payers)"),
+                          ("MCPool_splitadd.cfg", "Add split into its lock-free prefix and the critical section (duplicate test inside), 2 submissions in flight"),
                           ("MCPool_fork.cfg", "a legacy and a dynamic-fee tx across the GALACTICA fork (3 heads)"),
                           ("MCPool_thorough.cfg", "3 txs, 2 payers, <= 2 objects per tx, one slot per account")):
             ctx.tlc_must_hold("net", "MCPool", cfg=cfg, workers=8, timeout=3000, heap="8g", label=what)
@@ -26,6 +27,7 @@ def run(ctx):
     #    Its counterexample is replayed on the real pool: on a tree where promote compares identity nothing drifts.
     uni, f6 = pc.asis_counterexamples(ctx)
     pc.replay_f6(ctx, uni, f6)
+    pc.teeth_dupcheck(ctx)
 
     # 3. model -> implementation: behaviours of the repaired model, sampled by TLC, replayed step by step on a real pool
     #    (wash parked at its lock sites by the blocking tracer); quota, cost, flags, identities compared after every step
@@ -98,7 +100,7 @@ def run(ctx):
     ctx.cov["free_runs_with_overlap"] = sum(1 for s in stats if s["mode"] == "free" and s["midWashOps"] > 0)
     required = ["displaced", "errortrim", "promote_miss", "add_dup", "fill_dup", "remove_miss", "idguard_refusals",
                 "sameid_copooled", "eval_window_removes", "packer_blocks", "packer_adopted", "packer_removes", "sponsored_txs",
-                "reorgs", "work_expiries", "raced_adds"]
+                "reorgs", "work_expiries", "raced_adds", "dup_storms"]
     need_v = ["ok", "full", "nonexecfull", "notexec", "payer", "quota", "dquota", "rejected:expired", "rejected:inadmissible",
               "rejected:settled", "rejected:unpayable", "rejected:depreverted"]
     need_d = ["blocked", "depreverted", "expired", "inadmissible", "outlived", "settled", "unpayable", "unpayable-overall"]
